@@ -8,6 +8,7 @@ CONSTANTS
   Steps = {1, 2}
   KindRule = "own"
   Bug = "none"
+  ExpiryJitter = 0
 INVARIANTS HitIsFresh HitIsMeasuredVerdict MissProbes Bounded EvictedNeverServed Placement LruInSync NoRejuvenation
 POSTCONDITION Post
 CHECK_DEADLOCK FALSE
